@@ -738,7 +738,14 @@ def rule_Q1_Q2(ctx, rid1='Q1', rid2='Q2'):
     mults = [n for n in cfg.nodes if n.kind == 'stmt' and isinstance(n.ast, ast.Assign) and
              isinstance(n.ast.value, ast.Call) and
              dotted(n.ast.value.func) == 'self.rng.multinomial']
-    ctx.require(mults, 'Union.sample: multinomial allocation not found')
+    ctx.ob(rid2, 'Union.sample:allocation-is-random-draw', bool(mults), f.where(),
+           'the number of proposals per member is a multinomial draw from the sampler\'s '
+           'generator (unbiased for every member, however small)' if mults else
+           'the number of proposals per member is not drawn with self.rng.multinomial: a '
+           'deterministic or rounded allocation starves members with a small share of the '
+           'volume, so proposals are not uniform over the union')
+    if not mults:
+        return
     m = mults[0]
     okv = _depends(cfg, m.id, m.ast.value.args[1],
                    lambda e: isinstance(e, ast.Attribute) and dotted(e) == 'self.log_v_all')
